@@ -431,7 +431,10 @@ func (s *Store) instantiate(
 	for _, exp := range m.Exports {
 		if exp.Type == ExternTypeTable {
 			t := m.Tables[exp.Index]
+			// The table can be an imported one that is exported again: other instantiations append too.
+			t.involvingModuleInstancesMutex.Lock()
 			t.involvingModuleInstances = append(t.involvingModuleInstances, m)
+			t.involvingModuleInstancesMutex.Unlock()
 		}
 	}
 
